@@ -18,8 +18,9 @@ import traceback
 
 VERIF = os.path.dirname(os.path.dirname(os.path.dirname(os.path.abspath(__file__))))
 REPO = os.environ.get("PV_REPO", "/repo")
-EVIDENCE_DIR = os.path.join(VERIF, "evidence")
-REPLAY_DIR = os.path.join(VERIF, "replays")
+# the two overrides are used only by tools_seeded.py (seeded-change experiments must not overwrite committed evidence)
+EVIDENCE_DIR = os.environ.get("PV_EVIDENCE_DIR", os.path.join(VERIF, "evidence"))
+REPLAY_DIR = os.environ.get("PV_REPLAY_DIR", os.path.join(VERIF, "replays"))
 KNOWN = os.path.join(VERIF, "known_findings.json")
 
 TRUSTED_BASE_COMMON = [
